@@ -79,6 +79,9 @@ struct ItemReq {
     keep_fields: Option<Vec<String>>,
     #[serde(default)]
     extra_fields: Vec<String>,
+    /// K1 (Kani only): replace the value of an extracted `const` (scaled buffer sizes)
+    #[serde(default)]
+    override_value: Option<String>,
     /// D3 for enums: keep only these variants
     #[serde(default)]
     keep_variants: Option<Vec<String>>,
@@ -169,6 +172,10 @@ const TRACING: &[&str] = &["trace", "debug", "info", "warn", "error"];
 
 fn is_tracing_macro(m: &Macro) -> bool {
     let segs: Vec<String> = m.path.segments.iter().map(|s| s.ident.to_string()).collect();
+    // D7: debug-only assertions (absent from release builds) are dropped with the tracing macros
+    if segs.len() == 1 && (segs[0] == "debug_assert" || segs[0] == "debug_assert_eq" || segs[0] == "debug_assert_ne") {
+        return true;
+    }
     match segs.as_slice() {
         [one] => TRACING.contains(&one.as_str()),
         [a, b] => (a == "tracing" || a == "log") && TRACING.contains(&b.as_str()),
@@ -376,6 +383,18 @@ impl<'a> VisitMut for Rewriter<'a> {
                 }
             }
             Item::Const(c) => {
+                if top {
+                    if let Some(v) = &self.req.override_value {
+                        match parse_str::<Expr>(v) {
+                            Ok(e) => {
+                                self.dropped.push(format!("K1 const {} = {} scaled to {}", c.ident, compact_tokens(&c.expr), v));
+                                *c.expr = e;
+                                self.bump("K1");
+                            }
+                            Err(er) => self.errors.push(format!("K1 override_value: {}", er)),
+                        }
+                    }
+                }
                 self.filter_attrs(&mut c.attrs);
                 if !self.req.keep_vis {
                     c.vis = parse_quote!(pub);
